@@ -626,11 +626,21 @@ func genFormat(r *Rng, n int, allowW bool) string {
 	return sb.String()
 }
 
-
 // sortKeyMap: maps with keys of every kind internal/rfmt/fmtsort orders, values unsafe strings.
 func sortKeyMap(id, inst int) interface{} {
 	u := func(k int) string { return unsafeStr(id+k%2, inst) } // a leaf owns two ids
-	switch id % 9 {
+	switch id % 12 {
+	case 9:
+		// one entry whose unsafe key is not equal to itself in one instantiation only, value declared safe
+		return map[float64]redact.SafeString{[]float64{math.NaN(), 1.5}[inst%2]: "pubval"}
+	case 10:
+		return map[interface{}]interface{}{[]interface{}{float32(math.NaN()), float32(1.5)}[inst%2]: redact.SafeString("pubval2")}
+	case 11:
+		type nk struct {
+			F float64
+			S string
+		}
+		return map[nk]redact.SafeInt{nk{[]float64{math.NaN(), 2}[inst%2], "s"}: 77}
 	case 0:
 		return map[uint64]string{1: u(0), 42: u(1), math.MaxUint64: u(2), 1 << 63: u(3), 1<<63 - 1: u(4)}
 	case 1:
